@@ -53,7 +53,7 @@ def main(argv):
                                   summary=summ[-1] if summ else c.stdout[-300:])
         finally:
             sh(["git", "checkout", "--", "."], cwd=REPO)
-        detected = [p for p, v in results.items() if v["exit"] == 1]
+        detected = [p for p, v in results.items() if v["exit"] == 1 and v["violations"] > 0]
         meta = dict(
             id=sid, property=prop,
             breaks="see notes.txt (written by the sub-agent that produced the change)",
